@@ -133,9 +133,11 @@ def extended(t):
     import pymbolic.primitives as p
     out = []
     extra = p.Variable("w9")
-    if isinstance(t, (p.Sum, p.Product)):
+    if isinstance(t, (p.Sum, p.Product, p.Min, p.Max, p.BitwiseOr, p.BitwiseAnd, p.BitwiseXor, p.LogicalOr, p.LogicalAnd)):
         out.append(type(t)((*t.children, extra)))
         out.append(type(t)((extra, *t.children)))
+        if len(t.children) > 2 and not isinstance(t, (p.Sum, p.Product)):
+            out.append(type(t)(t.children[:-1]))        # one operand fewer
     if isinstance(t, p.Expression) and dataclasses.is_dataclass(t):
         for fld in dataclasses.fields(t):
             v = getattr(t, fld.name)
@@ -242,6 +244,9 @@ def bounded(tier, seed, procs):
                     recs = r[1]
                     for rec in recs:
                         bind = {}
+                        if not hasattr(rec, "equations"):
+                            why = f"the list of records contains {rec!r}, which is not a unification record"
+                            break
                         for lhs, rhs in rec.equations:
                             if not isinstance(lhs, p.Variable) or lhs.name not in cands:
                                 why = f"record binds {lhs!r}, not a declared candidate"
